@@ -102,7 +102,8 @@ pub uninterp spec fn listeners_told(hash: BlockHash, is_remove: bool) -> bool;
 
 impl<L: ChainListener> ChainTracker<L> {
 
-    // ---- trusted here: listener notification (touches only `listeners`), streamed-block bookkeeping
+    // ---- assumed here: listener notification (touches only `listeners`: VERIFIED in unit tracker_watches, which proves this
+    // frame and the slot updates on the real bodies), streamed-block bookkeeping
     // (`listeners_told` is an uninterpreted call marker: which block hash the monitors were told was added / removed)
     #[verifier::external_body]
     fn notify_listeners_remove(&mut self, txs: Option<&[Transaction]>, block_hash: BlockHash)
